@@ -572,6 +572,13 @@ class Walker:
                 env = dict(s.env)
                 env[(frame.fid, value.id)] = tc
                 s = s.fork(env=env)
+        if isinstance(value, ast.Name) and isinstance(tgt, ast.Attribute) and isinstance(tgt.value, ast.Name) and tgt.value.id == "self" and not component \
+                and frame.func.name == "__init__" and value.id in {a.arg for a in frame.func.args.args[1:]} \
+                and (s.env.get((frame.fid, value.id)) is None or re.fullmatch(r"\w+", str(s.env.get((frame.fid, value.id))))) and _stored_once(frame.func, value.id):
+            # a constructor keeps its argument: `self.simulation = simulation` -- afterwards the parameter and the field name the same object
+            env = dict(s.env)
+            env[(frame.fid, value.id)] = tc
+            s = s.fork(env=env)
         return s
 
     def kill(self, s, tc, frame, tgt_node):
@@ -953,6 +960,15 @@ class Walker:
                     out.append(s)
             cur = self.dedupe(cur)
         return self.dedupe(out)
+
+
+def _stored_once(fn, name):
+    """the parameter `name` of fn is never rebound and is stored into exactly one attribute of self"""
+    if any(isinstance(x, ast.Name) and x.id == name and isinstance(x.ctx, (ast.Store, ast.Del)) for x in ast.walk(fn)):
+        return False
+    n = sum(1 for x in ast.walk(fn) if isinstance(x, ast.Assign) and isinstance(x.value, ast.Name) and x.value.id == name
+            and any(isinstance(t, ast.Attribute) for t in x.targets))
+    return n == 1
 
 
 def _named_exprs(expr):
